@@ -331,6 +331,7 @@ func init() {
 			{Name: "CIGAR-SPLIT", What: "sam.ParseCigar, splitting a length above 2^28−1: what is left after a piece was taken off is shown positive before an operation is made from it – no zero-length operation for an exact multiple, which would fail IsValid for a valid CIGAR (shared with C06; added after seventh-round seeds C16-h, C06-h)", Floor: 2, Run: ruleCigarSplit},
 			{Name: "LAST-BASE", What: "the index Add methods validate End()-1, the last base, not the exclusive End(): positions up to 2^29-2 are indexable, so an alignment may end at 2^29-1 (shared with C04)", Floor: 2, Run: ruleLastBase},
 			{Name: "BIN-ARG-END", What: "csi.Add computes the bin from [Start(), End()): reg2bin takes an exclusive end, and the last base in its place files a record that ends on the first base of a smallest-level bin one bin too low (added after ninth-round seed C16-i)", Floor: 2, Run: ruleBinArgEnd},
+			{Name: "DEPTH-GUARD", What: "\"every CSI (minShift, depth) scheme\": csi.(*Index).Add assigns bins only for a depth whose numbering fits 32 bits; a deeper scheme is refused instead of being numbered wrongly (shared with C04)", Floor: 1, Run: ruleDepthGuard},
 			{Name: "LEN-SPAN", What: "Record.Len is End() − Start() – the span on the reference, B extension included – not a sum of operation lengths (added after ninth-round seed C16-j)", Floor: 1, Run: ruleLenSpan},
 		},
 		Explanation: "Bin assignment and bin enumeration agree when they use the same (first bin, shift) pair on every level: BIN-PAIRS extracts the pairs of the BAI functions from their SSA (if-chain and level table) and compares them, by value, with the UCSC scheme; BIN-PAIRS-CSI interprets the two CSI recurrences (after checking that they do not depend on the coordinates) for seven geometries. TAB-CONSUME/DEP-ROLES/BIT-CIGAR: the consumption table equals the specification's and each result is driven by the right column.",
